@@ -1,5 +1,6 @@
 import Driver.Util
 import Driver.Mgr
+import Driver.Gossip
 /-!
 # Model driver: one op per input line → one canonical output line.
 `driver <engine> < ops`.  Lines starting with `#` and blank lines are skipped; `case <name>`
@@ -8,7 +9,8 @@ resets the engine state and is echoed.
 open Piko.Driver
 
 def engines : List (String × Engine) :=
-  [("mgr", MgrEngine.engine)]
+  [("mgr", MgrEngine.engine),
+   ("gossip", GossipEngine.engine)]
 
 partial def loop (h : IO.FS.Stream) (out : IO.FS.Stream) (e : Engine) (s : e.σ) : IO Unit := do
   let line ← h.getLine
